@@ -28,7 +28,7 @@ structure Member where
 deriving DecidableEq, Repr, Inhabited
 
 /-- What `Identity::renew` of the instance's own identity does. -/
-inductive Policy | none | bump | same | lose
+inductive Policy | none | bump | same | lose | sameEq
 deriving DecidableEq, Repr, Inhabited
 
 def renew (p : Policy) (i : Id) : Option Id :=
@@ -37,6 +37,15 @@ def renew (p : Policy) (i : Id) : Option Id :=
   | .bump => some ⟨i.addr, i.gen + 1⟩
   | .same => some i
   | .lose => some ⟨i.addr, i.gen - 1⟩
+  | .sameEq => some i
+
+/-- `new_identity.win_addr_conflict(&self.identity)` in `attempt_rejoin`: the identity type decides, and nothing
+    obliges it to answer `false` for an identity equal to itself — flavour `sameEq` compares with `≥`. (Between
+    *distinct* identities of one address the generations differ, so `≥` and `>` agree there.) -/
+def renewWins (p : Policy) (a b : Id) : Bool :=
+  match p with
+  | .sameEq => decide (a.gen ≥ b.gen)
+  | _ => a.wins b
 
 /-- `members.cursor`; `usize::MAX` is its own constructor. -/
 inductive Cursor | at (i : Nat) | max
